@@ -47,7 +47,7 @@ def cases(ctx):
         c["shape"] = tuple(e + 1 for e in c["extents"])
         n = c["dense"][0].shape[0]
         c["n"] = n
-        c.update(aggr.agg_inputs(rng, n))
+        c.update(aggr.agg_inputs(rng, n, tiny_weights=True))
         c["all"] = bool(ctx.shard["all"])
         c["eseed"] = int(rng.integers(0, 2 ** 31))
         yield c
